@@ -18,8 +18,9 @@ THEOREMS = ["C13_inverse", "C13_inverse_graph", "C13_calledby_is_inverse", "C13_
             "C13_call_nodes_sound", "C13_callgraph_limit_partial", "C13_callgraph_limit_refuted",
             "C13_lazy_inverse_refuted", "C13_graph_false_partial", "C13_graph_false_refuted",
             "C13_filegraph_direction_partial", "C13_filegraph_direction_refuted"]
-COUNTS = {"intended_relations": 0, "intended_arrows_checked": 0}
-REGIONS = {1: "graph-false-neighbour", 2: "lazy-inverse", 4: "filegraph-reversed", 8: "callgraph-limit-double-count"}
+COUNTS = {"intended_relations": 0, "intended_arrows_checked": 0, "spec_from_generator": 0}
+REGIONS = {1: "graph-false-neighbour", 2: "lazy-inverse", 4: "filegraph-reversed", 8: "callgraph-limit-double-count",
+           16: "module-procedure-impl-edge", 32: "external-procedure-call-unresolved"}
 
 CORPUS = [
     # (files, settings) — hand-written projects that once mattered
@@ -53,7 +54,7 @@ def relimit(rng, world, fixed=None):
     return d, n
 
 
-def project_case(rng, files, st, nruns, project=None, intended=None, limits=None):
+def project_case(rng, files, st, nruns, project=None, intended=None, limits=None, proj=None):
     """parse, build the graphs nruns times under different limits; returns (term, info) or raises"""
     st = dict(st)
     show = bool(st.pop("show_proc_parent", False))
@@ -80,9 +81,10 @@ def project_case(rng, files, st, nruns, project=None, intended=None, limits=None
             if k + 1 < nruns:
                 relimit(rng, world, limits[k] if limits else None)
     labels, lbad = GI.label_table(runs)
+    spec, sbad = spec_term(world, allv, proj)
     term = ("(" + wterm + ", " + GI.nats(regids) + ", " + GI.nats(nograph) + ", " + coq_bool(show) + ", " +
-            labels + ", " + coq_list(coq_list(GI.graph_term(r) for r in recs) for recs in runs) + ")")
-    problems = [x for i in infos for x in i] + lbad
+            labels + ", " + coq_list(coq_list(GI.graph_term(r) for r in recs) for recs in runs) + ", " + spec + ")")
+    problems = [x for i in infos for x in i] + lbad + sbad
     summary = dict(entities=len(world.ents), registered=len(regids), nograph=len(nograph),
                    graphs=sum(len(r) for r in runs),
                    edges=sum(len(g["edges"]) for r in runs for g in r),
@@ -90,6 +92,30 @@ def project_case(rng, files, st, nruns, project=None, intended=None, limits=None
                    limit_hit=sum(1 for r in runs for g in r if g["hop"]),
                    classes=sorted({g["cls"] for r in runs for g in r}))
     return term, summary, problems, runs
+
+
+def spec_term(world, allv, proj):
+    """the Spec side from the generator: Some (world with the declared relation, expected registered
+    entities, entities with graph: false) for a strict generated project, else None"""
+    if proj is None or not proj.get("strict"):
+        return "None", []
+    rel, ng_keys = GG.declared(proj)
+    ents, keyid = world.gen_world(rel)
+    bad = []
+    allids = [world.node(r, "KMod") for r in allv]
+    top = max(world.ents, default=0)          # ids above are entities FORD has no object for: never in a graph
+    ng = sorted(keyid[k] for k in ng_keys if k in keyid and keyid[k] <= top)
+    ford_ng = sorted(world.node(r, "KMod") for r in allv if not r.meta.graph)
+    if sorted(set(ng) & set(allids)) != ford_ng:
+        bad.append(f"graph: false written for {sorted(set(ng) & set(allids))} but FORD has it for {ford_ng}")
+    sregs = [i for i in allids if i not in ng]
+    COUNTS["spec_from_generator"] += 1
+    adj, mask = GG.known_defect_view(proj, rel)
+    aterm = "None"
+    if mask:
+        aents, _ = world.gen_world(adj)
+        aterm = f"Some ({world.term(aents)}, {mask})"
+    return f"Some ({world.term(ents)}, {aterm}, {GI.nats(sregs)}, {GI.nats(ng)})", bad
 
 
 def python_checks(project, gm, log, recs, world):
@@ -174,13 +200,13 @@ def handle(chk, cases, res):
                                                     "rngstate": meta.get("seed")}, False)
 
 
-def add_case(chk, cases, rng, files, st, nruns, tag, intended=None, limits=None):
+def add_case(chk, cases, rng, files, st, nruns, tag, intended=None, limits=None, proj=None):
     seed = rng.getrandbits(32)
     import random
     sub = random.Random(seed)
     key = hashlib.sha1(json.dumps([files, st], sort_keys=True, default=str).encode()).hexdigest()[:12]
     try:
-        term, summary, problems, runs = project_case(sub, files, st, nruns, intended=intended, limits=limits)
+        term, summary, problems, runs = project_case(sub, files, st, nruns, intended=intended, limits=limits, proj=proj)
     except Exception as e:  # FORD failed on a valid project: an output, not a harness crash
         chk.count((tag, key), nontrivial=False, sample={"files": sorted(files), "error": repr(e)[:300]})
         chk.violation("failing-input", {"what": "ford raised on a generated project", "error": repr(e)[:2000],
@@ -243,8 +269,11 @@ def run(chk):
     exhaustive(chk, cases, rng, 2 if quick else 3, 3 if quick else 4)
     n = 110 if quick else 1500
     for i in range(n):
-        proj = GG.gen(rng, {"big": (not quick) and i % 10 == 0})
-        add_case(chk, cases, rng, GG.render(proj), GG.settings(rng), 3 if quick else 4, "gen", GG.intended(proj))
+        # every fifth project is drawn in the loose mode (ambiguous references, deferred and inherited
+        # bindings): model = implementation only; the others carry the generator's declared relation
+        proj = GG.gen(rng, {"big": (not quick) and i % 10 == 0, "strict": i % 5 != 4})
+        add_case(chk, cases, rng, GG.render(proj), GG.settings(rng), 3 if quick else 4, "gen", GG.intended(proj),
+                 proj=proj)
     t0 = time.time()
     res = chk.coq_judge(IMPORTS, CASE_T, "judge", [t for t, _ in cases], shard=5 if quick else 8)
     chk.extra["coq_eval_s"] = round(time.time() - t0, 1)
@@ -308,9 +337,12 @@ def end_to_end(chk, rng, nproj):
             labels, lbad = GI.label_table([recs])
             for pbl in lbad[:2]:
                 chk.violation("failing-input", {"what": pbl, "files": files, "options": opts}, True)
+            spec, sbad = spec_term(world, allv, proj)
+            for pbl in sbad[:2]:
+                chk.violation("failing-input", {"what": pbl, "files": files, "options": opts}, True)
             term = ("(" + world.term() + ", " + GI.nats([world.node(r, "KMod") for r in regs]) + ", " +
                     GI.nats([world.node(r, "KMod") for r in allv if not r.meta.graph]) + ", " + coq_bool(show) +
-                    ", " + labels + ", " + coq_list([coq_list(GI.graph_term(r) for r in recs)]) + ")")
+                    ", " + labels + ", " + coq_list([coq_list(GI.graph_term(r) for r in recs)]) + ", " + spec + ")")
             summary = dict(graphs=len(recs), edges=sum(len(g["edges"]) for g in recs))
             cases.append((term, dict(files=files, settings=opts, summary=summary, nruns=1)))
             # .gv files: same DOT source as the graph object; SVG of the graph names the same nodes
@@ -347,7 +379,9 @@ def findings(chk):
     import importlib
     for key, mod in (("graph-false-neighbour", "c13_graph_false"), ("lazy-inverse", "c13_lazy_inverse"),
                      ("filegraph-reversed", "c13_filegraph_reversed"),
-                     ("callgraph-limit-double-count", "c13_callgraph_limit")):
+                     ("callgraph-limit-double-count", "c13_callgraph_limit"),
+                     ("module-procedure-impl-edge", "c13_module_procedure_impl"),
+                     ("external-procedure-call-unresolved", "c13_external_procedure_calls")):
         try:
             m = importlib.import_module("findings." + mod)
             still = bool(m.demonstrate(verbose=False))
@@ -379,6 +413,8 @@ def replay(chk, rep):
         print("python check:", pbl)
     res = chk.coq_judge(IMPORTS, CASE_T, "judge", [term])
     print("judge code (bit0 model<>impl, bit1 property violated, >>2 known-region mask):", res)
+    print("relation FORD derived vs relation declared in the source (entity, only FORD, only source):",
+          chk.coq_eval(IMPORTS, f"relation_diff {term}")[-2000:])
     out = chk.coq_eval(IMPORTS, f"detail {term}")
     print("detail (run, graph, model-mismatch, unexplained, regions):", out[-3000:])
     m = re.findall(r"\((\d+), (\d+), (true|false), (true|false), (\d+)\)", out)
